@@ -80,10 +80,13 @@ def _get_calls(stmts, nsec, env, parent_conv=None, out=None):
                 else: raise ValueError('option name not understood: ' + ast.unparse(e))
                 d = args[1] if len(args) > 1 else None
                 do_expand = True
+                passes = False
                 for k in e.keywords:
                     if k.arg == 'do_expand' and isinstance(k.value, ast.Constant):
                         do_expand = bool(k.value.value)
-                out.append((name, conv or '', _dflt(d, env), do_expand))
+                    if k.arg == 'expansions' and ast.unparse(k.value) == 'expansions':
+                        passes = True      # the caller's own dictionary is handed to the lookup
+                out.append((name, conv or '', _dflt(d, env), do_expand, passes))
                 return
             # converter(get(...)) : a call with exactly one positional argument which is the get call
             c = None
@@ -144,17 +147,122 @@ def opt_rows():
     rows = []
     f = _find(tree, 'ServerOptions._processes_from_section')
     for r in _get_calls(f.body, 1, {}):
-        rows.append(('program',) + r)
+        rows.append(('program',) + r[:4])
     f = _find(tree, 'ServerOptions.process_groups_from_parser')
     for st in f.body:
         if isinstance(st, ast.For):
             sc = _loop_scope(st)
             for r in _get_calls(st.body, 1, {}):
-                rows.append((sc,) + r)
+                rows.append((sc,) + r[:4])
     f = _find(tree, 'ServerOptions.read_config')
     for r in _get_calls(f.body, 0, {}):
-        rows.append(('supervisord',) + r)
+        rows.append(('supervisord',) + r[:4])
     return rows
+
+
+# ---- placement of the statements that bind / update the expansion dictionary of the numprocs loop ----------
+_COPIES = ('dict(common_expansions)', 'common_expansions.copy()', 'copy.copy(common_expansions)', 'dict(**common_expansions)',
+           'dict(common_expansions.items())')
+
+
+def _key_step(key, val):
+    if key == 'process_num' and val == 'process_num': return 'setProcessNum'
+    if key == 'numprocs' and val == 'numprocs': return 'setNumprocs'
+    raise ValueError('expansions[%r] = %s: not a statement the model knows' % (key, val))
+
+
+def _exp_step(st):
+    """the ExpStep constructors a statement stands for; None when it does not bind or update `expansions`"""
+    if isinstance(st, ast.FunctionDef):
+        return None
+    if isinstance(st, ast.Assign) and len(st.targets) == 1:
+        t = st.targets[0]
+        if isinstance(t, ast.Name) and t.id == 'expansions':
+            v = ast.unparse(st.value)
+            if v == 'common_expansions': return ['alias']
+            if v in _COPIES: return ['copy']
+            raise ValueError('expansions = %s: not a binding the model knows' % v)
+        if isinstance(t, ast.Subscript) and isinstance(t.value, ast.Name) and t.value.id == 'expansions' \
+                and isinstance(t.slice, ast.Constant):
+            return [_key_step(t.slice.value, ast.unparse(st.value))]
+    if isinstance(st, ast.Expr) and isinstance(st.value, ast.Call) and ast.unparse(st.value.func) == 'expansions.update' \
+            and len(st.value.args) == 1 and not st.value.keywords:
+        a = st.value.args[0]
+        if isinstance(a, ast.Dict) and all(isinstance(k, ast.Constant) for k in a.keys):
+            return [_key_step(k.value, ast.unparse(v)) for k, v in zip(a.keys, a.values)]
+        if ast.unparse(a) == 'self.environ_expansions':
+            return ['resetEnviron']
+        raise ValueError('expansions.update(%s): not an update the model knows' % ast.unparse(a))
+    for n in ast.walk(st):
+        if isinstance(n, ast.Name) and n.id == 'expansions' and isinstance(n.ctx, (ast.Store, ast.Del)):
+            raise ValueError('statement binds `expansions` in a way the model does not know: ' + ast.unparse(st)[:80])
+        if isinstance(n, ast.Attribute) and isinstance(n.value, ast.Name) and n.value.id == 'expansions' \
+                and n.attr in ('update', 'pop', 'clear', 'setdefault', 'popitem'):
+            raise ValueError('statement updates `expansions` in a way the model does not know: ' + ast.unparse(st)[:80])
+    return None
+
+
+def _has_get(st):
+    return any(isinstance(n, ast.Call) and isinstance(n.func, ast.Name) and n.func.id == 'get' for n in ast.walk(st))
+
+
+def loop_placement():
+    """-> dict(pre=[steps before the loop], head=[steps at the head of the loop body], writeback=bool,
+               gets=[(option, passes expansions=expansions)] of the loop body, reexpand=bool)
+    Which statements are INSIDE the `for process_num in range(...)` loop is a fact the per-process
+    independence theorem depends on (Props/C14.lean process_independent)."""
+    f = _find(_tree(OPT), 'ServerOptions._processes_from_section')
+    idx = next((i for i, n in enumerate(f.body) if isinstance(n, ast.For) and isinstance(n.target, ast.Name)
+                and n.target.id == 'process_num'), None)
+    if idx is None:
+        raise ValueError('process_num loop not found')
+    loop = f.body[idx]
+    pre = []
+    last_get = -1
+    first_step = None
+    for i, st in enumerate(f.body[:idx]):
+        steps = _exp_step(st)
+        if steps:
+            if 'setProcessNum' in steps:
+                raise ValueError('process_num used before the loop')
+            pre.extend(steps)
+            first_step = i if first_step is None else first_step
+        elif not isinstance(st, ast.FunctionDef) and _has_get(st):
+            last_get = i
+    if first_step is not None and first_step < last_get:
+        raise ValueError('`expansions` is bound before the last option lookup in front of the loop: placement not modelled')
+    head = []
+    body = list(loop.body)
+    k = 0
+    while k < len(body):
+        st = body[k]
+        if isinstance(st, ast.Assign) and len(st.targets) == 1 and isinstance(st.targets[0], ast.Name) \
+                and st.targets[0].id == 'environment':
+            break
+        steps = _exp_step(st)
+        if steps:
+            head.extend(steps)
+        elif _has_get(st):
+            raise ValueError('option lookup before the environment is expanded: loop shape not modelled')
+        k += 1
+    if k >= len(body):
+        raise ValueError('`environment = ...` not found in the loop')
+    envsrc = ast.unparse(body[k].value).replace(' ', '')
+    if not envsrc.startswith('dict_of_key_value_pairs(expand(environment_str,expansions,'):
+        raise ValueError('environment statement not understood: ' + envsrc[:80])
+    rest = body[k + 1:]
+    writeback = False
+    if rest and isinstance(rest[0], ast.For) and ast.unparse(rest[0].iter) == 'environment.items()' and len(rest[0].body) == 1 \
+            and ast.unparse(rest[0].body[0]).replace(' ', '').replace('"', "'") == "expansions['ENV_%s'%k]=v":
+        writeback = True
+        rest = rest[1:]
+    for st in rest:
+        if _exp_step(st):
+            raise ValueError('`expansions` is rebound after the environment was expanded: loop shape not modelled')
+    gets = [(r[0], r[4]) for r in _get_calls(rest, 1, {})]
+    reexpand = any(isinstance(n, ast.Call) and isinstance(n.func, ast.Name) and n.func.id == 'expand' and n.args
+                   and isinstance(n.args[0], ast.Name) and n.args[0].id == 'lf_val' for st in rest for n in ast.walk(st))
+    return dict(pre=pre, head=head, writeback=writeback, gets=gets, reexpand=reexpand)
 
 
 _UNSET = re.compile(r'^(no |do not)', re.I)
@@ -281,6 +389,20 @@ def TABLES():
     L.append('/-- upper-case SIG* attributes of the signal module (getattr(signal, name)) -/')
     L.append('def sigNames : List (String × Int) := [%s]' % ', '.join('(%s, %d)' % (lean_str(k), v) for k, v in sn))
     L.append('def sigNums : List Int := [%s]' % ', '.join(str(v) for v in sorted(set(int(x) for x in datatypes.SIGNUMS))))
+    # placement facts of the numprocs loop (last: an unknown statement form is an extraction error)
+    lp = loop_placement()
+    L.append('')
+    L.append('/-- _processes_from_section: statements binding/updating `expansions` in front of the numprocs loop -/')
+    L.append('def pfsPreLoop : List ExpStep := [%s]' % ', '.join('.' + x for x in lp['pre']))
+    L.append('/-- ... and at the head of the loop body, before the environment is expanded (source order) -/')
+    L.append('def pfsLoopHead : List ExpStep := [%s]' % ', '.join('.' + x for x in lp['head']))
+    L.append("/-- the loop writes the program's own environment back as ENV_ expansions right after expanding it -/")
+    L.append('def pfsWriteBack : Bool := %s' % ('true' if lp['writeback'] else 'false'))
+    L.append('/-- every get(...) of the loop body after that: (option, passes expansions=expansions) -/')
+    L.append('def pfsLoopGets : List (String × Bool) := [%s]' % ', '.join(
+        '(%s, %s)' % (lean_str(o), 'true' if p else 'false') for o, p in lp['gets']))
+    L.append('/-- the looked-up (already expanded) log file name is expanded a second time -/')
+    L.append('def pfsLogfileReexpanded : Bool := %s' % ('true' if lp['reexpand'] else 'false'))
     return L
 
 
